@@ -391,6 +391,7 @@ class Categorize(Factory, Container):
             and numeq(self.entries, other.entries)
             and self.quantity == other.quantity
             and self.contentType == other.contentType
+            and self.value == other.value
             and self.bins == other.bins
         )
 
